@@ -124,10 +124,15 @@ def part_read(sh, res):
                     continue      # the empty prefix (= no comment lines at all) and a two-character prefix: one symbol below the bound
                 res.feat('reader_comment_prefix_%s' % {None: 'none', '#': 'hash', '': 'empty', '##': 'two_chars'}[comment])
                 data = text.encode('utf-8')
-                for mode in ('bulk', 'stream'):
-                    c = {'op': 'read', 'mode': mode, 'encoding': 'utf-8', 'dlm': dlm, 'policy': policy, 'has_header': has_header, 'comment_prefix': comment}
+                for mode in ('bulk', 'stream', 'stream1'):      # stream1: the same bytes delivered one byte per chunk (the finest fragmentation: CR, LF and multi-byte characters each split from their neighbours)
+                    if mode == 'stream1' and len(data) < 2:
+                        continue
+                    c = {'op': 'read', 'mode': 'stream' if mode == 'stream1' else mode, 'encoding': 'utf-8', 'dlm': dlm, 'policy': policy, 'has_header': has_header, 'comment_prefix': comment}
                     if mode == 'bulk':
                         c['hex'] = data.hex()
+                    elif mode == 'stream1':
+                        c['pieces'] = ['%02x' % b for b in data]
+                        res.feat('reader_cases_one_byte_chunks')
                     else:
                         c['pieces'] = [data.hex()] if data else []
                     cases.append(c)
@@ -378,7 +383,7 @@ def main(tier, seed):
              'cross round trips on representable tables, header of all language-neutral select lists of <= 2 items; non-trivial = the line contains a quote / the field needs quoting / the file yields a warning or error / a header is produced',
         assumptions=['the quantifier\'s "random longer Unicode inputs" is not imitated by sampling; the seed rotates the ordinary character instead', 'header vocabulary restricted to forms both header parsers are specified for'],
         extra={'bounds': {'split': 8 if T else 7, 'quote': 6 if T else 5, 'read': 6 if T else 5}},
-        min_features={'split_cases': 50000, 'quote_cases': 10000, 'reader_cases': 100000, 'reader_cases_with_warning_or_error': 10000, 'cross_py_write_js_read': 1000, 'cross_js_write_py_read': 1000, 'header_cases': 500, 'writer_bytes_identical': 10000, 'byte_level_reader_cases': 50000, 'byte_level_undecodable': 10000, 'reader_comment_prefix_empty': 5000, 'reader_comment_prefix_two_chars': 5000})
+        min_features={'split_cases': 50000, 'quote_cases': 10000, 'reader_cases': 100000, 'reader_cases_one_byte_chunks': 30000, 'reader_cases_with_warning_or_error': 10000, 'cross_py_write_js_read': 1000, 'cross_js_write_py_read': 1000, 'header_cases': 500, 'writer_bytes_identical': 10000, 'byte_level_reader_cases': 50000, 'byte_level_undecodable': 10000, 'reader_comment_prefix_empty': 5000, 'reader_comment_prefix_two_chars': 5000})
 
 
 def replay(rep):
@@ -398,9 +403,11 @@ def replay(rep):
         rc, eng = tree.csvmod(), tree.engine()
         data = c['text'].encode('utf-8')
         p_ = norm_py(c12.read_all(rc, eng, io.BytesIO(data), 'utf-8', c['dlm'], c['policy'], c['has_header'], c['comment'], 1024))
-        req = {'op': 'read', 'mode': c['js_mode'], 'encoding': 'utf-8', 'dlm': c['dlm'], 'policy': c['policy'], 'has_header': c['has_header'], 'comment_prefix': c['comment']}
+        req = {'op': 'read', 'mode': 'stream' if c['js_mode'] == 'stream1' else c['js_mode'], 'encoding': 'utf-8', 'dlm': c['dlm'], 'policy': c['policy'], 'has_header': c['has_header'], 'comment_prefix': c['comment']}
         if c['js_mode'] == 'bulk':
             req['hex'] = data.hex()
+        elif c['js_mode'] == 'stream1':
+            req['pieces'] = ['%02x' % b for b in data]
         else:
             req['pieces'] = [data.hex()] if data else []
         j_ = norm_js(js.run_batch([req])[0], c['has_header'])
